@@ -116,6 +116,14 @@ def check_set(w, label, parts, bufs, deep):
         viol.append(("C08:original-changed-by-save", dict(label=label, sources=srcs)))
     if w.cmd("info 0") != info0:
         viol.append(("C08:original-info-changed-by-save", dict(label=label, sources=srcs)))
+    # file API: the saved file equals the stream image whatever the destination held before (absent, empty, shorter, longer), and loads through yr_rules_load
+    for pre in ((-1, 0, 3, sv["len"] - 1, sv["len"] + 1, 3 * sv["len"]) if deep else (-1, 3 * sv["len"])):
+        r = w.batch(["savefile 0 2" + (" pre=%d" % pre if pre >= 0 else ""), "blobcmp 0 2", "load 1 2 file=1", "info 1", "rdestroy 1"]); n += 1
+        where = "fresh-path" if pre < 0 else "over-longer-file" if pre > sv["len"] else "over-shorter-file"
+        if r[0]["rc"] != 0: viol.append(("C08:file-api:save-failed:%s" % where, dict(label=label, reply=r[0]))); continue
+        if not r[1]["eq"]: viol.append(("C08:file-api:file-differs-from-stream-image:%s" % where, dict(label=label, existing_bytes=pre, image_bytes=sv["len"], file_bytes=r[0]["len"], firstdiff=r[1]["firstdiff"])))
+        if r[2]["rc"] != 0: viol.append(("C08:file-api:load-of-saved-file-failed:%s" % where, dict(label=label, rc=r[2]["rc"], existing_bytes=pre)))
+        elif r[3] != info0: viol.append(("C08:file-api:loaded-info-differs:%s" % where, dict(label=label)))
     chunks = CHUNKS if deep else [1, 7, 0]
     for c in chunks:
         r = w.batch(["load 1 0 chunk=%d" % c, "info 1"] + scan_all("r1", bufs) + ["save 1 1", "blobcmp 0 1"]); n += len(bufs)
